@@ -1,4 +1,5 @@
 import NormModel.Properties.C09
 #print axioms Norm.C09.token_positions
+#print axioms Norm.C09.column_one_iff_line_start
 #print axioms Norm.C09.tokens_ordered
 #print axioms Norm.C09.diag_positions
